@@ -70,4 +70,26 @@ def cases3() -> List[Dict[str, Any]]:
             f"app/{plug}.py": f"class Plugin:\n    'doc'\n    from app.{pub} import registry\n    def run(self): pass\nclass After:\n    pass\n",
             f"app/{pub}.py": f"from app.{plug} import Plugin\n__all__ = ['Plugin', 'registry']\nregistry = []\n"}, roots=["app"]))
     A(case("huge-hex-integer", {"pk/m.py": "X = 0x" + "f" * 4000 + "\n'doc'\ndef f(a=0x" + "e" * 3800 + "): pass\n"}))
+    # --- round 9
+    # either half of a surrogate pair, alone, wherever a docstring or a string value is read
+    A(case("lone-surrogate-halves", {"pk/m.py": (
+        "'''module \\udc00 low half'''\n"
+        "def f():\n    'trailing half \\udfff'\n"
+        "def g():\n    'leading half \\udbff'\n"
+        "class C:\n    'both \\udc00\\ud800 in the wrong order'\n    x = 1\n    'attribute doc \\udead'\n"
+        "    def m(self, a='\\udfff'):\n        '@param a: value \\udc80'\n"
+        "Y = '\\udfff'\n'doc of Y \\ude00'\n")}))
+    # zope interfaces spread over modules that import each other: the derived interface is visited before / after its base exists
+    for k, (base, derived) in enumerate((("a_base", "b_derived"), ("b_base", "a_derived"))):
+        A(case(f"zope-interface-cycle-{k}", {
+            "zc/__init__.py": "",
+            f"zc/{base}.py": f"from zope.interface import Interface\nfrom zc import {derived}\nclass IBase(Interface):\n    def ping():\n        'Ping.'\n",
+            f"zc/{derived}.py": f"from zc.{base} import IBase\nclass IDerived(IBase):\n    'derived'\n    def pong():\n        'Pong.'\nclass IDeeper(IDerived):\n    pass\n",
+            "zc/zimpl.py": f"from zope.interface import implementer\nfrom zc.{derived} import IDerived, IDeeper\n@implementer(IDerived)\nclass Impl:\n    def ping(self): pass\n    def pong(self): pass\n"
+                           "@implementer(IDeeper)\nclass Impl2(Impl):\n    pass\n"}, roots=["zc"]))
+    # a function that has overloads only (no implementation), with and without annotations, in a class and in a module
+    A(case("overloads-without-implementation", {"pk/m.py": (
+        "from typing import overload\n@overload\ndef f(a: int) -> int: ...\n@overload\ndef f(a: str) -> str: ...\n"
+        "class C:\n    @overload\n    def m(self, a: int) -> int:\n        '''\n        @param a: documented\n        '''\n    @overload\n    def m(self, a): ...\n"),
+        "pk/stub.pyi": "from typing import overload\n@overload\ndef g(a: int) -> int: ...\n"}))
     return out
